@@ -504,4 +504,112 @@ theorem exec_pairs (c : Cfg) (R : Rec → Rec → Prop)
       | newSolver => exact absurd hops (by simp [RunsAndResets])
 
 
+/-! ### schedules whose configuration changes between segments
+
+The controller is a parameter of every `Solver.run`, the user may replace the load function or
+re-declare a relation between two runs; the element tuple and the self-locking flag are fixed
+when the powertrain is assembled.  `execSeg` runs a list of (configuration, operations) segments on
+one powertrain; every surviving record obeys the record law of the configuration of one of the
+segments (the one in force when it was recorded). -/
+
+def FrameInv (P : Rec → Prop) (sl : Bool) (s : St) : Prop :=
+  (∀ r ∈ s.recs, P r) ∧ (s.locked = true → sl = true)
+
+theorem compute_frame (P : Rec → Prop) (c : Cfg) (hP : ∀ r, RecOK c r → P r) (s s' : St) (t : Q)
+    (h : FrameInv P c.sl s) (hc : compute c s t = .ok s') : FrameInv P c.sl s' := by
+  obtain ⟨r, hr, hok, _, hl, _⟩ := compute_recOK c s s' t h.2 hc
+  constructor
+  · intro r' hr'
+    rw [hr] at hr'
+    rcases List.mem_append.mp hr' with h1 | h1
+    · exact h.1 r' h1
+    · simp at h1; subst h1; exact hP _ hok
+  · intro hl'; rw [hl] at hl'; exact hok.lockedSL hl'
+
+theorem loop_frame (P : Rec → Prop) (c : Cfg) (hP : ∀ r, RecOK c r → P r) (dt : Q) (stop) (ts : List Q) (s s' : St)
+    (h : FrameInv P c.sl s) (hl : loop c dt stop ts s = .ok s') : FrameInv P c.sl s' := by
+  induction ts generalizing s with
+  | nil => simp [loop] at hl; subst hl; exact h
+  | cons t ts ih =>
+    simp only [loop] at hl
+    split at hl
+    · simp at hl
+    · rename_i s1 h1
+      have i1 : FrameInv P c.sl s1 := compute_frame P c hP _ _ t (by simpa [FrameInv, integrate] using h) h1
+      split at hl
+      · simp only [Except.ok.injEq] at hl; subst hl; exact i1
+      · exact ih s1 i1 hl
+
+theorem applyOp_frame (P : Rec → Prop) (c : Cfg) (hP : ∀ r, RecOK c r → P r) (s s' : St) (o : Op)
+    (h : FrameInv P c.sl s) (ha : applyOp c s o = .ok s') : FrameInv P c.sl s' := by
+  cases o with
+  | run dt n stop =>
+    simp only [applyOp] at ha
+    unfold run at ha
+    split at ha
+    · exact loop_frame P c hP dt stop _ s s' h ha
+    · split at ha
+      · simp at ha
+      · rename_i s0 h0
+        exact loop_frame P c hP dt stop _ s0 s'
+          (compute_frame P c hP { s with locked := false } s0 0 ⟨h.1, by intro hh; simp at hh⟩ h0) ha
+  | reset =>
+    simp only [applyOp, reset] at ha
+    split at ha
+    · simp at ha
+    · simp only [Except.ok.injEq] at ha; subst ha; exact ⟨by simp, h.2⟩
+  | setInitial p v => simp [applyOp] at ha; subst ha; exact ⟨h.1, h.2⟩
+  | setPwm p =>
+    simp only [applyOp] at ha
+    split at ha
+    · simp only [Except.ok.injEq] at ha; subst ha; exact ⟨h.1, h.2⟩
+    · simp at ha
+  | newSolver => simp [applyOp] at ha; subst ha; exact ⟨h.1, by simp⟩
+
+theorem exec_frame (P : Rec → Prop) (c : Cfg) (hP : ∀ r, RecOK c r → P r) (ops : List Op) (s s' : St)
+    (h : FrameInv P c.sl s) (he : exec c ops s = .ok s') : FrameInv P c.sl s' := by
+  induction ops generalizing s with
+  | nil => simp [exec] at he; subst he; exact h
+  | cons o os ih =>
+    simp only [exec] at he
+    split at he
+    · simp at he
+    · rename_i s1 h1
+      exact ih s1 (applyOp_frame P c hP s s1 o h h1) he
+
+/-- segments of operations, each under its own configuration -/
+def execSeg : List (Cfg × List Op) → St → Except Err St
+  | [], s => .ok s
+  | (c, ops) :: rest, s =>
+    match exec c ops s with
+    | .error e => .error e
+    | .ok s' => execSeg rest s'
+
+/-- every record that survives a segmented schedule obeys the record law of one of the segments'
+    configurations, provided all of them carry the powertrain's (fixed) self-locking flag -/
+theorem execSeg_records (sl : Bool) (all : List Cfg) :
+    ∀ (segs : List (Cfg × List Op)) (s s' : St),
+      (∀ seg ∈ segs, seg.1 ∈ all ∧ seg.1.sl = sl) →
+      FrameInv (fun r => ∃ c ∈ all, RecOK c r) sl s →
+      execSeg segs s = .ok s' →
+      FrameInv (fun r => ∃ c ∈ all, RecOK c r) sl s'
+  | [], s, s', _, h, he => by simp [execSeg] at he; subst he; exact h
+  | (c, ops) :: rest, s, s', hall, h, he => by
+    simp only [execSeg] at he
+    split at he
+    · simp at he
+    · rename_i s1 h1
+      obtain ⟨hmem, hsl⟩ := hall (c, ops) (by simp)
+      have h' : FrameInv (fun r => ∃ c ∈ all, RecOK c r) c.sl s := by rw [hsl]; exact h
+      have := exec_frame (fun r => ∃ c ∈ all, RecOK c r) c (fun r hr => ⟨c, hmem, hr⟩) ops s s1 h' h1
+      rw [hsl] at this
+      exact execSeg_records sl all rest s1 s' (fun seg hs => hall seg (by simp [hs])) this he
+
+/-- the kinematic part of the record law does not depend on controller, load function or motor law:
+    configurations that share the ratio list give the same coupling statement -/
+theorem recOK_coupled_of_links (c c' : Cfg) (h : c.links.map (·.ratio) = c'.links.map (·.ratio)) (r : Rec)
+    (hr : RecOK c r) : Coupled (c'.links.map (·.ratio)) r.pos ∧ Coupled (c'.links.map (·.ratio)) r.speed ∧
+      Coupled (c'.links.map (·.ratio)) r.acc := by
+  rw [← h]; exact ⟨hr.pos, hr.speed, hr.acc⟩
+
 end Gearpy
